@@ -10,8 +10,9 @@ prop=$(python3 -c "import json;print(json.load(open('$d/meta.json'))['property']
 wt=/tmp/seedrun-$id
 git -C /repo worktree remove --force "$wt" >/dev/null 2>&1
 git -C /repo worktree add -q "$wt" HEAD || exit 2
-git -C "$wt" apply "$d/patch.diff" || { echo "patch does not apply"; git -C /repo worktree remove --force "$wt"; exit 2; }
-out=/verif/.build/seeded-out/$id; mkdir -p "$out"
+out=/verif/.build/seeded-out/$id; mkdir -p "$out"; rm -f "$out/stdout.txt" "$out/stderr.txt" "$out/STALE-PATCH"
+git -C /repo log --format=%h -1 > "$out/head.txt"
+git -C "$wt" apply "$d/patch.diff" || { echo "patch does not apply"; touch "$out/STALE-PATCH"; git -C /repo worktree remove --force "$wt"; exit 2; }
 h=$(python3 -c "import hashlib;print(hashlib.sha1('$wt'.encode()).hexdigest()[:6])")
 # warm start: reuse the dependency artefacts of the main build caches
 [ -d /verif/.build/daemon ] && [ ! -d /verif/.build/daemon-alt$h ] && cp -a --reflink=auto /verif/.build/daemon /verif/.build/daemon-alt$h
@@ -23,5 +24,5 @@ grep -E "VIOLATION|KNOWN-FINDING" "$out/stdout.txt"
 tail -1 "$out/stderr.txt"
 git -C /repo worktree remove --force "$wt"
 # remove the scratch build output of this worktree
-rm -rf /verif/.build/daemon-alt$h /verif/.build/pt-alt$h /verif/.build/pt-src-alt$h
+rm -rf /verif/.build/*-alt$h
 exit 0
